@@ -18,7 +18,8 @@ let () =
         let row_cmp r = String.concat "" (List.map (fun c -> match c with Z0 -> "0" | Zpos _ -> "+" | Zneg _ -> "-") r) in
         print_endline (String.concat " " (List.map dec_of_n hs) ^ " || "
                        ^ String.concat " " (List.map row_eq eqm) ^ " || "
-                       ^ String.concat " " (List.map row_cmp cm))
+                       ^ String.concat " " (List.map row_cmp cm) ^ " || "
+                       ^ row_eq (pool_wf es))
       with
       | Unsupported m -> print_endline ("UNSUPPORTED " ^ m)
       | Failure m -> print_endline ("FAIL " ^ m))
